@@ -560,6 +560,9 @@ class Gen:
         self.q.feat.add("graft:" + g)
         if g in SCALAR_GRAFTS_OBJ:
             return SCALAR_GRAFTS_OBJ[g].format(o=o), "d"
+        if g in COLL_GRAFTS:
+            c, _ = self.coll(self.cur_event)
+            return COLL_GRAFTS[g].format(c=c), "d"
         if g in SEQ_GRAFTS:
             self.graft = None
             s, _ = self.numseq(e, scope, max(d - 1, 0))
@@ -571,7 +574,7 @@ class Gen:
         return SCALAR_GRAFTS[g].format(a=a), "d"
 
     def scalar(self, e: str, scope: List[str], d: int, obj: Optional[str] = None) -> Tuple[str, str]:
-        if self.graft and not self.graft_done and (self.graft in SCALAR_GRAFTS or self.graft in SCALAR_GRAFTS_OBJ or self.graft in SEQ_GRAFTS) and self.r.random() < 0.35:
+        if self.graft and not self.graft_done and (self.graft in SCALAR_GRAFTS or self.graft in SCALAR_GRAFTS_OBJ or self.graft in SEQ_GRAFTS or self.graft in COLL_GRAFTS) and self.r.random() < 0.35:
             r = self._graft_scalar(e, scope, d, obj)
             if r is not None:
                 return r
@@ -763,12 +766,34 @@ SCALAR_GRAFTS = {
     "complex_constant": "({a}+2j)",
 }
 SCALAR_GRAFTS_OBJ = {
+    # arithmetic on an object (every operator, either position): only numbers have arithmetic
+    "obj_add": "({o}+1)",
+    "obj_sub": "(1-{o})",
+    "obj_mul": "({o}*2.0)",
+    "obj_div": "({o}/2)",
+    "obj_rdiv": "(1000.0/{o})",
+    "obj_mod": "({o}%2)",
+    "obj_pow": "({o}**2)",
     "getattribute": '{o}.getAttribute("x")',
     "kwargs": "{o}.pt(unit=1)",
     "slice": "{o}.vals()[0:2].Count()",
 }
+COLL_GRAFTS = {
+    # arithmetic on a collection as fetched from the event (not yet a Select/Where sequence)
+    "coll_add": "({c}+1)",
+    "coll_mul": "(2*{c})",
+    "coll_div": "({c}/2)",
+    "coll_rdiv": "(1000.0/{c})",
+    "coll_mod": "({c}%2)",
+}
 SEQ_GRAFTS = {
     "seq_arith": "({s}+1)",
+    "seq_sub": "({s}-1)",
+    "seq_mul": "(2*{s})",
+    "seq_div": "({s}/2)",
+    "seq_rdiv": "(1.0/{s})",
+    "seq_mod": "({s}%2)",
+    "seq_pow": "({s}**2)",
     "seq_neg": "(-{s})",
     "agg_only": "{s}.Aggregate(lambda a, b: a + b)",
     "agg_func_seed": "{s}.Aggregate(lambda z: z, lambda a, b: a + b)",
@@ -794,7 +819,7 @@ MD_GRAFTS = {
     "md_collection_extra_key": {"metadata_type": "add_atlas_event_collection_info", "name": "MyJets", "include_files": ["a.h"], "container_type": "xAOD::JetContainer", "element_type": "xAOD::Jet", "contains_collection": True, "what_is_this": 1},
     "md_collection_elem_mismatch": {"metadata_type": "add_atlas_event_collection_info", "name": "MyJets", "include_files": ["a.h"], "container_type": "xAOD::JetContainer", "contains_collection": True},
 }
-ALL_GRAFTS = list(SCALAR_GRAFTS) + list(SCALAR_GRAFTS_OBJ) + list(SEQ_GRAFTS) + list(PRED_GRAFTS) + ROW_GRAFTS + list(MD_GRAFTS)
+ALL_GRAFTS = list(SCALAR_GRAFTS) + list(SCALAR_GRAFTS_OBJ) + list(COLL_GRAFTS) + list(SEQ_GRAFTS) + list(PRED_GRAFTS) + ROW_GRAFTS + list(MD_GRAFTS)
 
 
 def gen_grafted(rng: random.Random, uni: Universe, kind: str, depth: int = 2):
